@@ -50,7 +50,7 @@ SPEC = dict(
          "EntityReference e} with a 4-string data list (n<=2: all 288 configurations; n<=3 over a 22-step 'mini' alphabet: 90 'core' configurations; "
          "thorough adds n<=3 over the full 46-step alphabet and n<=4 over the mini alphabet, both under the 18 default-feature configurations); (nsnest) every chain of depth <= 3 (thorough 4) of API-built elements {a, a{urn:a}, a{urn:b}, p:a{urn:a}, "
          "p:a{urn:b}} x attribute {none, p:x{urn:a}, p:x{urn:b}} without any xmlns attribute (90 core configurations): every declaration in the output comes from namespace fix-up, "
-         "and a prefix / the default namespace is bound, re-bound further down and needed with the first binding again; (ladder, thorough) <a> with one Text / attribute value / CDATA / Comment = filler^(N+off) + special + 'tail', N in {8192,16384,32768}, off in -3..+1, filler 'x' or U+00E9, special in "
+         "and a prefix / the default namespace is bound, re-bound further down and needed with the first binding again; (ladder; thorough all 600 trees, quick the 40 with N=16384, U+10000 or '&', Text or attribute value) <a> with one Text / attribute value / CDATA / Comment = filler^(N+off) + special + 'tail', N in {8192,16384,32768}, off in -3..+1, filler 'x' or U+00E9, special in "
          "{U+10000, U+20AC, '&', CR, ']]>'}: the interesting character at, before and behind the 16384-unit / 16384-byte block edges of XMLFormatter (600 trees x 18 default-feature configurations); "
          "(data) <a> holding one Text / CDATA / Comment / PI / attribute value / "
          "Text+CDATA+Text with every string of <= k symbols (k=2: 343 strings under all 288 configurations; thorough adds k=3: 6175 strings under the 90 core configurations) over {x < & > \" ' CR LF TAB ]]> ]] -- ?> U+00E9 U+20AC U+10000 U+0085 U+0001}. "
@@ -94,6 +94,7 @@ SPEC = dict(
             dict(name="built-n2-full", driver="c12_ser", args=["--space", "built", "--steps", 2, "--deadline", 45] + _T + _K),
             dict(name="built-n3-mini-core", driver="c12_ser", args=["--space", "built", "--steps", 3, "--dataset", "mini", "--configs", "core", "--witness", 0, "--deadline", 75] + _T + _K),
             dict(name="nsnest-d3-core", driver="c12_ser", args=["--space", "nsnest", "--steps", 3, "--configs", "core", "--witness", 0, "--deadline", 60] + _T + _K),
+            dict(name="formatter-block-edge-ladder-subset", driver="c12_ser", args=["--space", "ladder", "--ladder", "quick", "--configs", "defaults", "--witness", 0, "--deadline", 120] + _T + _K),
         ],
         thorough=[
             dict(name="formatter-block-edge-ladder", driver="c12_ser", args=["--space", "ladder", "--configs", "defaults", "--witness", 0, "--deadline", 1500] + _T + _K),
